@@ -24,6 +24,7 @@ func checkC07(c *Check, a *Anchors) {
 	c07RecursionGated(c, a)
 	c07ReentrantWait(c, a)
 	c07SoleLimiter(c, a)
+	recursionReviewed(c, a, "recursion-reviewed")
 }
 
 func c07SlotPaired(c *Check, a *Anchors) {
@@ -289,7 +290,8 @@ func c07RecursionGated(c *Check, a *Anchors) {
 			}
 		}
 	}
-	// the gate may be switched off only by the global watch mode: every other conjunct weakens it
+	// the gate is unconditional: every conjunct beside the counter test switches it off for some invocation (the pinned tree
+	// switched it off in watch mode, where a cyclic dependency then ran until memory was exhausted — defect D37)
 	var extra []string
 	var conj func(e ast.Expr)
 	conj = func(e ast.Expr) {
@@ -297,9 +299,6 @@ func c07RecursionGated(c *Check, a *Anchors) {
 		if be, ok := e.(*ast.BinaryExpr); ok && be.Op == token.LAND {
 			conj(be.X)
 			conj(be.Y)
-			return
-		}
-		if u, ok := e.(*ast.UnaryExpr); ok && u.Op == token.NOT && fieldSel(info, u.X, PkgTask, "Executor", "Watch") {
 			return
 		}
 		isCount := false
@@ -314,7 +313,7 @@ func c07RecursionGated(c *Check, a *Anchors) {
 		}
 	}
 	conj(gate.Cond)
-	c.Decide(len(extra) == 0, "recursion-gated", "gate-unconditional@"+name, gate.Pos(), "the gate is only switched off by Executor.Watch", "the call-count gate is additionally conditional on `"+strings.Join(extra, "`, `")+"`: a cycle made of tasks for which that condition is false recurses without bound instead of ending with error 204")
+	c.Decide(len(extra) == 0, "recursion-gated", "gate-unconditional@"+name, gate.Pos(), "the gate has no condition beside the counter test", "the call-count gate is additionally conditional on `"+strings.Join(extra, "`, `")+"`: a cycle made of tasks for which that condition is false recurses without bound instead of ending with error 204")
 	beforeDedup := a.DedupCall != nil && gate.End() < a.DedupCall.Pos()
 	// the gate is a direct statement of RunTask's body (found by scanning rt.Body.List): every path that reaches a later statement passed it
 	c.Decide(found && beforeDedup, "recursion-gated", "gate@"+name, gate.Pos(), "top-level gate before the dedup call returning *TaskCalledTooManyTimesError",
